@@ -113,6 +113,10 @@ impl Serialize for W<'_> {
             (Ty::Option(_), Val::None) => s.serialize_none(),
             (Ty::Option(t), Val::Some(x)) => s.serialize_some(&w(t, x)),
             (Ty::Seq(t), Val::Seq(xs)) => {
+                if cfg.hmask & H1_NOLEN == 0 {
+                    // what `impl Serialize for Vec<T>` does
+                    return s.collect_seq(xs.iter().map(|x| w(t, x)));
+                }
                 let len = if cfg.flag(H1_NOLEN) { None } else { Some(xs.len()) };
                 let mut q = s.serialize_seq(len)?;
                 for x in xs {
@@ -135,6 +139,10 @@ impl Serialize for W<'_> {
                 q.end()
             }
             (Ty::Map(kt, vt), Val::Map(kvs)) => {
+                if cfg.hmask & (H1_NOLEN | H2_SPLIT_ENTRY) == 0 {
+                    // what `impl Serialize for BTreeMap<K, V>` does
+                    return s.collect_map(kvs.iter().map(|(k, v)| (WKey { ty: kt, v: k, cfg }, w(vt, v))));
+                }
                 let len = if cfg.flag(H1_NOLEN) { None } else { Some(kvs.len()) };
                 let mut m = s.serialize_map(len)?;
                 for (k, v) in kvs {
